@@ -290,7 +290,7 @@ def run_r3(syn_items, rep):
             per[form] += 1
             rep.check(good, "C09-R3", "cursor-advance:%s:%s%s" % (w, form, "#%d" % per[form] if per[form] > 1 else ""),
                       "%s moves the cursor by `%s %s`: the cursor may only advance by the number of graphemes matched" % (w, op, render(val)))
-    rep.floor("C09-R3", "writers of ParseString.cursor", len(entry_points), 4)
+    rep.floor("C09-R3", "writers of ParseString.cursor", len(entry_points), 2)   # mechanisms, not copies: consume_alpha / _digit / _emoji may share one helper
     rep.floor("C09-R3", "column/row updates", len(col_updates), 5)
     for name, tgt, op, val in col_updates:
         v = render(val)
